@@ -225,3 +225,158 @@ if __name__ == "__main__":
         for p in e.problems:
             print("TRANSLATOR-PROBLEM", p["error"])
         sys.exit(1)
+
+
+# ------------------------------------------------------------------------------------------- selftest
+def _b(x):
+    return "([" + ", ".join(str(c) for c in bytes(x)) + "] : TLX.Bytes)"
+
+
+def _bool(x):
+    return "true" if x else "false"
+
+
+def _exc(e):
+    return {IndexError: "index", ZeroDivisionError: "zeroDiv", ValueError: "value", OverflowError: "overflow",
+            KeyError: "key"}.get(type(e))
+
+
+def _cases(rng, n):
+    """(lean name, lean arguments, expected lean term) from running the REAL Python functions of the tree under test"""
+    import importlib
+    from types import SimpleNamespace as NS
+    dis = importlib.import_module("tlexport.quic.quic_dissector")
+    dec = importlib.import_module("tlexport.quic.quic_decode")
+    qs = importlib.import_module("tlexport.quic.quic_session")
+    qp = importlib.import_module("tlexport.quic.quic_packet")
+    ses = importlib.import_module("tlexport.session")
+    ob = importlib.import_module("tlexport.output_builder")
+    qob = importlib.import_module("tlexport.quic.quic_output_builder")
+    import io
+    import contextlib
+    out = []
+
+    def rb(lo, hi):
+        return bytes(rng.randrange(256) for _ in range(rng.randint(lo, hi)))
+
+    def call(f, *a):
+        try:
+            with contextlib.redirect_stdout(io.StringIO()):
+                return ("ok", f(*a))
+        except Exception as e:
+            if _exc(e) is None:
+                raise
+            return ("err", _exc(e))
+    hts = {qp.QuicHeaderType.LONG: "TLX.Quic.HType.long", qp.QuicHeaderType.SHORT: "TLX.Quic.HType.short"}
+    pts = {getattr(qp.QuicPacketType, k.split(".")[1]): v[0] for k, v in PTYPE.items()}
+    vers = {getattr(ses.TlsVersion, k.split(".")[1]): v[0] for k, v in TLSVER.items()}
+    for _ in range(n):
+        d = rb(0, 3)
+        k, v = call(dis.get_header_type, d)
+        out.append(("get_header_type", _b(d), f".ok {hts[v]}" if k == "ok" else f".error .{v}"))
+        k, v = call(dis.get_packet_type, d)
+        out.append(("get_packet_type", _b(d), (f".ok (some {pts[v]})" if v is not None else ".ok none") if k == "ok" else f".error .{v}"))
+        d = rb(0, 9)
+        for name, f in (("get_variable_length_int_length", dec.get_variable_length_int_length),
+                        ("decode_variable_length_int", dec.decode_variable_length_int)):
+            k, v = call(f, d)
+            out.append((name, _b(d), f".ok {v}" if k == "ok" else f".error .{v}"))
+        # get_full_packet_number: any field length 0..5, table entries of any size below 2^63, both directions
+        srv = rng.random() < 0.5
+        pn = rb(0, 5)
+        big = rng.choice([0, 1, 255, 2 ** 16, 2 ** 32 - 1, 2 ** 62 - 1, 2 ** 62 + 5]) + rng.randrange(0, 300)
+        small = rng.choice([0, 0, 7, 300])
+        tabs = {True: {"k": big if srv else small}, False: {"k": small if srv else big}}
+        me = NS(packet_number_server=dict(tabs[True]), packet_number_client=dict(tabs[False]))
+        old = qs.PACKET_TYPE_MAP
+        qs.PACKET_TYPE_MAP = {"t": "k"}
+        try:
+            k, v = call(qs.QuicSession.get_full_packet_number, me, NS(isserver=srv, packet_type="t", packet_num=pn))
+        finally:
+            qs.PACKET_TYPE_MAP = old
+        st = f"{{ pn_server := ({me.packet_number_server['k']} : Int), pn_client := ({me.packet_number_client['k']} : Int) }}"
+        out.append(("get_full_packet_number", f"{_bool(srv)} {_b(pn)} ({tabs[True]['k']} : Int) ({tabs[False]['k']} : Int)",
+                    f".ok {_b(v)} {st}" if k == "ok" else f".raised .{v} {st}"))
+        # packet_isserver
+        pool = [b"", b"\x01", b"\x01\x02", b"\x09"]
+        sc, cc = [c for c in pool if rng.random() < 0.5], [c for c in pool if rng.random() < 0.5]
+        dcid = rng.choice(pool)
+        ips = [b"\x0a\x00\x00\x01", b"\x0a\x00\x00\x02"]
+        pk = NS(ip_src=rng.choice(ips), sport=rng.choice([443, 5000]))
+        me = NS(server_cids=set(sc), client_cids=set(cc), client_ip=rng.choice(ips), client_port=rng.choice([443, 5000]))
+        k, v = call(qs.QuicSession.packet_isserver, me, pk, dcid)
+        lst = lambda xs: "[" + ", ".join(_b(x) for x in xs) + "]"
+        out.append(("packet_isserver", f"{_b(dcid)} {lst(sc)} {lst(cc)} {_b(pk.ip_src)} {pk.sport} {_b(me.client_ip)} {me.client_port}", _bool(v)))
+        # matches_session_dgram / matches_session / set_client_and_server_ports
+        me = NS(server_ip=rng.choice(ips), server_port=rng.choice([443, 5000]), client_ip=rng.choice(ips), client_port=rng.choice([443, 5000]))
+        pk = NS(ip_src=rng.choice(ips), ip_dst=rng.choice(ips), sport=rng.choice([443, 5000]), dport=rng.choice([443, 5000]),
+                ipv6_packet=rng.random() < 0.5, ethernet_src=b"\x02\x01", ethernet_dst=b"\x02\x02")
+        sess = f"{_b(me.server_ip)} {me.server_port} {_b(me.client_ip)} {me.client_port}"
+        k, v = call(qs.QuicSession.matches_session_dgram, me, pk.ip_src, pk.ip_dst, pk.sport, pk.dport)
+        out.append(("matches_session_dgram", f"{_b(pk.ip_src)} {_b(pk.ip_dst)} {pk.sport} {pk.dport} {sess}", _bool(v)))
+        k, v = call(ses.Session.matches_session, me, pk)
+        out.append(("matches_session", f"{_b(pk.ip_src)} {_b(pk.ip_dst)} {pk.sport} {pk.dport} {sess}", _bool(v)))
+        ports = rng.choice([[443, 44330], [5000], []])
+        me = NS()
+        call(ses.Session.set_client_and_server_ports, me, pk, ports)
+        out.append(("set_client_and_server_ports",
+                    f"[{', '.join(str(p) for p in ports)}] {_bool(pk.ipv6_packet)} {_b(pk.ip_src)} {_b(pk.ip_dst)} {pk.sport} {pk.dport} "
+                    f"{_b(pk.ethernet_src)} {_b(pk.ethernet_dst)}",
+                    f"{{ ipv6 := {_bool(me.ipv6)}, server_ip := {_b(me.server_ip)}, server_port := {me.server_port}, "
+                    f"server_mac_addr := {_b(me.server_mac_addr)}, client_ip := {_b(me.client_ip)}, client_port := {me.client_port}, "
+                    f"client_mac_addr := {_b(me.client_mac_addr)} }}"))
+        # handle_alert / handle_tls_client_hello
+        ver = rng.choice([None] + list(vers))
+        me = NS(tls_version=ver, can_decrypt=rng.random() < 0.5, client_hello_seen=rng.random() < 0.5)
+        lvl = rng.choice([0, 1, 2, 1, 255])
+        args = f"{lvl} {'none' if ver is None else '(some ' + vers[ver] + ')'} {_bool(me.can_decrypt)} {_bool(me.client_hello_seen)}"
+        call(ses.Session.handle_alert, me, lvl)
+        out.append(("handle_alert", args, f"{{ can_decrypt := {_bool(me.can_decrypt)}, client_hello_seen := {_bool(me.client_hello_seen)} }}"))
+        me = NS()
+        binary = rb(0, 50)
+        call(ses.Session.handle_tls_client_hello, me, NS(binary=binary))
+        hb = me.handshake_13_buffer
+        out.append(("handle_tls_client_hello", _b(binary),
+                    f"{{ can_decrypt := {_bool(me.can_decrypt)}, server_cipher_change := {_bool(me.server_cipher_change)}, "
+                    f"client_cipher_change := {_bool(me.client_cipher_change)}, "
+                    f"handshake_13_buffer := ({_b(hb.get(False, b''))}, {_b(hb.get(True, b''))}), "
+                    f"client_random := some {_b(me.client_random)}, client_hello_seen := {_bool(me.client_hello_seen)} }}"))
+        # output builders
+        pm = rng.choice([{}, {443: 8443}, {443: 8443, 5000: 1}])
+        sp, keep = rng.choice([443, 5000, 80]), rng.random() < 0.5
+        pml = "(fun k => " + "".join(f"if k = {a} then some {b} else " for a, b in pm.items()) + "none)"
+        me = NS()
+        k, v = call(ob.OutputBuilder.__init__, me, [], "s", "c", sp, 4000, "ms", "mc", pm, False, keep)
+        out.append(("output_builder_init", f"{sp} 4000 {pml} {_bool(keep)}",
+                    f".ok () {{ server_port_ := {me.server_port}, client_port_ := {me.client_port}, default_port := {me.default_port}, "
+                    f"server_seq := {me.server_seq}, client_seq := {me.client_seq} }}"))
+        me = NS()
+        k, v = call(qob.QUICOutputbuilder.__init__, me, [], "s", "c", sp, 4000, "ms", "mc", pm, False, keep)
+        out.append(("quic_output_builder_init", f"{sp} 4000 {pml} {_bool(keep)}",
+                    f".ok () {{ server_port_ := {me.server_port}, client_port_ := {me.client_port}, default_port := {me.default_port} }}"))
+    return out
+
+
+def selftest(n=60, seed=0):
+    """The translator and `PyRt.lean` against CPython: every whole-function translation is evaluated by Lean on sampled
+    inputs and compared with what the Python function itself does (result, exception, attribute writes).
+    → {"cases": k, "mismatches": [...]}; needs `Translated.lean` generated from the same tree and built."""
+    import random
+    import subprocess
+    import fw
+    cases = _cases(random.Random(seed), n)
+    path = os.path.join(fw.LEAN, ".audit", "tr_selftest.lean")
+    os.makedirs(os.path.dirname(path), exist_ok=True)
+    with open(path, "w") as fh:
+        fh.write("import TLX.Gen.Translated\nopen TLX TLX.PyRt TLX.Gen.Py\nset_option maxRecDepth 100000\n")
+        for i, (name, args, exp) in enumerate(cases):
+            fh.write(f"#eval IO.println s!\"TR {i} {{decide ({name} {args} = {exp})}}\"\n")
+    rc, outp = fw.sh(["lake", "env", "lean", path], cwd=fw.LEAN)
+    seen = {}
+    for line in outp.splitlines():
+        if line.startswith("TR "):
+            _, i, v = line.split()
+            seen[int(i)] = v
+    bad = [{"case": i, "function": cases[i][0], "args": cases[i][1], "python": cases[i][2], "lean_agrees": seen.get(i)}
+           for i in range(len(cases)) if seen.get(i) != "true"]
+    return {"cases": len(cases), "functions": len({c[0] for c in cases}), "mismatches": bad, "log_tail": outp.splitlines()[-5:] if bad else []}
